@@ -76,3 +76,13 @@ C09_SIZE_EXCEPTIONS["widget.frame.Frame.keypress:self._body.keypress"] = {
     "reason": "Frame.keypress derives the body height itself (maxrow minus header/footer rows(), augmented assignments) instead of frame_top_bottom(); "
     "the two derivations agree whenever header and footer fit, which is C09's precondition; not compared",
 }
+
+# C16: list mutators that need no focus override in MonitoredFocusList, one reason each.
+C16_FOCUS_EXEMPT = {
+    "__iadd__": "appends behind every existing item: the focused item's index cannot change, and on an empty list the focus setter's invariant _focus == 0 makes the first appended item the focus",
+}
+# C16.2 early returns without a list call, and overrides that compute the focus after the call.
+C16_ORDER_AFTER = {
+    "sort:return None": "sort() of an empty list has nothing to do and returns before touching the list (no modified callback, no change)",
+    "computed_after": ("reverse", "sort"),  # the new index depends on the resulting order: read _focus/value before, store after
+}
